@@ -120,7 +120,9 @@ pub fn run_history_inner(prop: &str, seed: u64, hist: u64, keys: &Rc<Vec<interp:
     let mut mon = Mon::new(prop, w.peers.len(), known.clone(), &w.sc.ast.clone());
     let mut d = driver::Driver::new(&w, &mut rng);
     if w.sc.fault_cfg.contains_key("byz") {
-        d.byz = Some(rng.below(np));
+        let b = rng.below(np);
+        d.byz = Some(b);
+        w.sc.byz = Some(b);
     }
     d.run(&mut w, &mut rng, &mut mon);
     finish(w, mon, seed, hist)
